@@ -14,7 +14,7 @@ from harness import c07_stmts as S
 META = {
     "id": "C07",
     "technique": "Coq proof (induction over line lists: _strip_inline_comment vs Python's comment rule, _collect_block vs Python's block rule, round trip of the block-skeleton parser over every layout of the re-layout relation; reflection over the translator-generated line-accounting table) + extracted-model correspondence with the real lexical functions, header regexes and the recorded _parse_simple_lines call tree + CPython tokenize/ast validation of the specification + re-layout metamorphism and line-accounting oracles on the real parse()+emit() with the REDUINO_VERIF hook + Coq model of the control-flow part of _emit_block / emit() with a C++ compound-statement reader as specification (induction over IR trees: the firmware's block tree and the conditions every line runs under are Python's) + block-structure oracle on the real firmware",
-    "level_text": "Theorems C07_* (coq/Props/C07.v) are proved for all line lists about a Gallina model of the lexical layer of parser.py (Lang/Lex.v) against a hand-written model of Python's layout rules (Lang/PyLayout.v, validated against CPython's tokenizer and ast on every run). Block extent and comment stripping are proved inside explicit guards and refuted outside them by concrete witnesses (mixed tabs, '#' in a triple-quoted literal); comment-only lines at any column, trailing comments on column-0 headers and on elif/else/except are inside the guards since the repair of the comment handling (fixed findings, replayed on every run); the line-accounting table (69 statement kinds x 4 contexts) is regenerated from the current parser and checked by computation against the fixed set of the property plus the listed gaps; `continue` left the listed gaps with the repair of the parser (fixed finding, replayed on every run) and is pinned: translated in a for/while loop and at the level of the main loop, rejected outside any loop. The firmware side (Lang/EmitBlocks.v): _emit_block's treatment of IfStatement / WhileLoop / ForRangeLoop / TryStatement and the function / setup / loop sections of emit() are modelled line by line; read the way C++ groups lines into compound statements, the emitted lines are proved to be one stanza per branch, loop and handler around exactly its own lines (C07_emit_block_structure, C07_sketch_sections_structure), and - composed with the grouping of the lexical skeleton into IR nodes and with C07_roundtrip_partial - the compound statements of the firmware and the conditions each line runs under are proved to be those of Python's block tree for every layout inside the guard (C07_firmware_blocks_are_pythons_partial, C07_layout_to_firmware_partial, C07_firmware_paths_are_pythons_partial); the statement layer enters these theorems as arbitrary functions. The model is run against the real functions on enumerated and generated inputs; the property's own relations (same firmware across layouts; no unlisted line disappears; every control header of the script is in the firmware once and every numbered statement / break / continue / return runs in the function and under the chain of conditions Python gives it) are evaluated on the real transpiler.",
+    "level_text": "Theorems C07_* (coq/Props/C07.v) are proved for all line lists about a Gallina model of the lexical layer of parser.py (Lang/Lex.v) against a hand-written model of Python's layout rules (Lang/PyLayout.v, validated against CPython's tokenizer and ast on every run). Block extent and comment stripping are proved inside explicit guards and refuted outside them by concrete witnesses (mixed tabs, '#' in a triple-quoted literal); comment-only lines at any column, trailing comments on column-0 headers and on elif/else/except are inside the guards since the repair of the comment handling (fixed findings, replayed on every run); the line-accounting table (70 statement kinds x 4 contexts) is regenerated from the current parser and checked by computation against the fixed set of the property plus the listed gaps; `continue` left the listed gaps with the repair of the parser (fixed finding, replayed on every run) and is pinned: translated in a for/while loop and at the level of the main loop, rejected outside any loop; since the repair of the silent drops ('unknown -> ignore' became ValueError) the 127 remaining (kind, context) pairs left the gaps and are pinned Rejected (C07_former_gaps_rejected), the positive theorem C07_dispatch_total_partial (neither in the fixed set nor the one gap left => never dropped) replaced the refutation, the end of the dispatch loop is modelled (C07_tail_never_drops, C07_tail_rejects_unrecognised, for every line), one gap is left (host-side SerialMonitor.connect/close). The firmware side (Lang/EmitBlocks.v): _emit_block's treatment of IfStatement / WhileLoop / ForRangeLoop / TryStatement and the function / setup / loop sections of emit() are modelled line by line; read the way C++ groups lines into compound statements, the emitted lines are proved to be one stanza per branch, loop and handler around exactly its own lines (C07_emit_block_structure, C07_sketch_sections_structure), and - composed with the grouping of the lexical skeleton into IR nodes and with C07_roundtrip_partial - the compound statements of the firmware and the conditions each line runs under are proved to be those of Python's block tree for every layout inside the guard (C07_firmware_blocks_are_pythons_partial, C07_layout_to_firmware_partial, C07_firmware_paths_are_pythons_partial); the statement layer enters these theorems as arbitrary functions. The model is run against the real functions on enumerated and generated inputs; the property's own relations (same firmware across layouts; no unlisted line disappears; every control header of the script is in the firmware once and every numbered statement / break / continue / return runs in the function and under the chain of conditions Python gives it) are evaluated on the real transpiler.",
     "level_text_2": "Added: (a) the round trip at the level of parse() is PROVED (C07_top_roundtrip_partial, C07_top_relayout_invariant_partial: target(...) directives, import filter, column-0 while True / while / for / def, if / try chains through _collect_if/try_structure, simple statements; guard Layout.top_layout_ok) and composed with the firmware block theorems into one statement from source text to emitted C++ blocks (C07_script_to_firmware_partial, C07_two_layouts_same_firmware_partial). (b) the statement recognisers are inside the model: every RE_* pattern is translated from its parsed form into Lang/Rx.v (derivative matcher, C07_rx_match_decides), 63 of 74 are proved to be instances of five shapes, the dispatch loop of _parse_simple_lines (order, device-set guards) is regenerated from its source and pinned (C07_dispatch_chain_pinned); optional spacing between tokens is proved accepted for every spacing inside the exact guard (C07_call0_spacing_partial, C07_call_spacing_partial, C07_decl_spacing, C07_sleep_spacing) and refuted outside it by the witnesses of the two findings (C07_call_paren_space_refuted, C07_call_dot_space_refuted, C07_call_args_paren_space_refuted, C07_keyword_paren_refuted).",
     "level_text_3": "Added (third round): the statement layer between the lexical skeleton and the emitted blocks. (c) variable promotion is inside the model (Lang/Promote.v: _rewrite_nodes, the if handler's local _rewrite, _make_promotion_decls, what the while / for / try / if handlers append): for EVERY set of promoted names and every node tree the rewritten tree holds the same statements in the same places (C07_promotion_rewrite_keeps_every_statement, C07_promotion_rewrite_if_keeps_every_statement, C07_promotion_rewrite_keeps_paths), no promoted name stays declared below (C07_promotion_rewrite_assigns_promoted), and a handler adds nothing but default-initialised placeholder declarations in front of the block (C07_promoted_loop_keeps_its_body, C07_promotion_adds_only_placeholders). (d) _emit_block's statement nodes next to the de-duplication sets it threads through setup() (Lang/EmitStmt.v): emitting = resolving the device declarations against the sets, then writing (C07_emit_resolves_then_writes); resolving touches no statement node (C07_resolve_keeps_every_statement); hence in every state of the sets, inside and outside setup(), the lines of every statement node and stanza are written, in order, as often as the script makes the statement (C07_statement_lines_written_in_every_state, C07_statement_line_count, C07_statements_ignore_the_sets, C07_outside_setup_sets_unchanged). Both models run against the real functions (_rewrite_nodes, _make_promotion_decls, _emit_block with given sets) on generated IR trees, and the theorems' relations are evaluated on the real outputs (oracle).",
     "level_note": "Trusted: Coq kernel, translator harness/gen/dispatch.py (black-box observation of parse+emit), extraction, OCaml driver, CPython tokenize/ast as 'what Python means'. Theorems are about the model. The RE_* patterns and the order / guards of the dispatch loop are regenerated from parser.py on every run (harness/gen/linerx.py, fail-closed) and run by a regex engine proved to decide the usual language of a regular expression.",
